@@ -13,6 +13,7 @@ from contracts.rx_cascade import guard_possible, branch_language
 
 CALLSTMT = seq(opt(seq(kw("if"), ws0, ST.COND, ws0)), kw("call"), ws1, ST.LHS)
 GOTO = seq(kw("go"), ws0, kw("to"), ws0, lit("("), ws0, ST.DIG, star(seq(ws0, lit(","), ws0, ST.DIG)), ws0, lit(")"), opt(seq(ws0, opt(lit(",")), ws0, ST.E1)))
+ENTRY = seq(kw("entry"), ws1, NAME, ws0, opt(seq(ST.A1, ws0)), opt(seq(kw("result"), ws0, lit("("), ws0, NAME, ws0, lit(")"), ws0)))
 FUNCREF_STMT = seq(ST.LHS, ws0, lit("="), ws0, opt(seq(ST.E1, ws0, ST.OPER, ws0)), NAME, ws0, ST.A1, opt(seq(ws0, ST.OPER, ws0, ST.E1)))
 
 
@@ -42,8 +43,17 @@ def obligations(prop="C08", part="all"):
     callidx = min(b.idx for b in cas if b.regex in ("CALL_RE", "SUBCALL_RE"))
     goto = RX(T + "ARITH_GOTO_RE", pats["ARITH_GOTO_RE"], "search")
     out.append(goto.covers(f"{prop}.B.ARITH_GOTO_RE.covers", GOTO, "computed / arithmetic GOTO `go to (10, 20) i`, `goto(1,2,3), k`"))
-    for name, S in (("format", ST.FORMAT), ("goto", GOTO)):
-        rxname = "FORMAT_RE" if name == "format" else "ARITH_GOTO_RE"
+    if "ENTRY_RE" in pats:
+        ent = RX(T + "ENTRY_RE", pats["ENTRY_RE"], "match")
+        out.append(ent.covers(f"{prop}.B.ENTRY_RE.covers", ENTRY, "`entry name`, `entry name(args)`, `entry name(args) result(r)` in any letter case"))
+        out.append(ent.excludes(f"{prop}.B.ENTRY_RE.excludes_assignments", seq(kw("entry"), ws0, opt(ST.A1), ws0, lit("="), star(cls(SP.ALL))),
+                                "an assignment to a variable called `entry` is not an ENTRY statement"))
+    else:
+        out.append(OR(id=f"{prop}.B.ENTRY_RE.covers", status=REFUTED, kind="B", target=T + "ENTRY_RE", desc="ENTRY statements are recognised before the call-scanning branch",
+                      detail="no ENTRY_RE in the dispatch cascade: `entry name(args)` is scanned as a function reference",
+                      replay={"confirmed": True, "input": "entry second(y)", "actual": "no pattern ENTRY_RE", "expected": "a pattern dispatched before CALL_RE"}))
+    for name, S in (("format", ST.FORMAT), ("goto", GOTO), ("entry", ENTRY)):
+        rxname = {"format": "FORMAT_RE", "goto": "ARITH_GOTO_RE", "entry": "ENTRY_RE"}[name]
         idx = [b.idx for b in cas if b.regex == rxname]
         ok = bool(idx) and idx[0] < callidx
         out.append(OR(id=f"{prop}.S.cascade.{name}_before_call_branch", status=PROVED if ok else REFUTED, kind="S", role="pre", backend="ast",
